@@ -76,12 +76,22 @@ class VT:
             if keys.get("a") == "T":
                 self._pending = keys
             if keys.get("a") == "d":
-                self.log.append(("kitty-delete", keys)); return
+                self.log.append(("kitty-delete", keys))
+                d = keys.get("d", "a")
+                if d in ("C", "c"):
+                    # every placement that covers the cursor cell goes away - all of it, not only that cell
+                    hit = self.images.get((self.row, self.col))
+                    if hit is not None and hit[0] == "kitty":
+                        self.images = {k_: v_ for k_, v_ in self.images.items() if v_ != hit}
+                elif d in ("A", "a"):
+                    self.images = {k_: v_ for k_, v_ in self.images.items() if v_[0] != "kitty"}
+                return
             if keys.get("m", "0") == "0" and getattr(self, "_pending", None) and keys.get("a", "T") in ("T",) or (keys.get("m") == "0" and getattr(self, "_pending", None)):
                 k = self._pending; self._pending = None
                 c, r = int(k["c"]), int(k["r"])
+                self._pid = getattr(self, "_pid", 0) + 1
                 for rr in range(self.row, self.row + r):
-                    for cc in range(self.col, self.col + c): self.images[(rr, cc)] = ("kitty", k.get("z"))
+                    for cc in range(self.col, self.col + c): self.images[(rr, cc)] = ("kitty", k.get("z"), self._pid)
                 assert k.get("C") == "1"
             return
         if m.group("osc") is not None:
